@@ -55,7 +55,7 @@ From Coq Require Import String List NArith.
 From ApiFu Require Import Base.Sexp Feat.FeaturesModel Feat.FeaturesSpec Feat.FeaturesProofs Feat.FeaturesReach
   Feat.FeaturesDocModel Feat.FeaturesDocProofs Feat.FeaturesFuelProofs.
 From ApiFu Require Vld.Ast Vld.Inspect Vld.TypeInfoModel Vld.ValidatorModel Vld.ProofsCommon Vld.Witness Feat.FeaturesVld Feat.FeaturesVldRules
-  Exe.ExecData Exe.ExecModel Feat.FeaturesExe.
+  Val.Values ExeA.ArgData ExeA.ArgModel Feat.FeaturesExe.
 Import ListNotations.
 Open Scope string_scope.
 Open Scope list_scope.
@@ -319,25 +319,33 @@ Theorem C13_C04_spread_rule_after_fix :
   = Vld.Ast.Done nil.
 Proof. exact FeaturesVld.spreads_after_fix. Qed.
 
-(** ** the bridge to C01's executor model (coq/Exe, imported read-only; Feat/FeaturesExe.v)
+(** ** the bridge to C01's executor model (coq/ExeA: the tied model with field arguments through C05's
+    coercion; imported read-only; Feat/FeaturesExe.v)
 
     C01's model has no feature parameter; what the executor does with a request's feature set is
-    handed to it as a schema: [FeaturesExe.view leaf S F], the types, fields, implemented interfaces,
-    union members and root types the request may see ([leaf]: how scalars and enums are presented;
-    arbitrary).  The F-view of S is literally the G-view of the erased schema, so C01's whole request
-    pipeline returns the same on both.  Not established here: that the real executor on (S, F)
-    behaves as C01's model on the F-view — C01's check runs without feature sets; that tie is
-    C13's own correspondence on chains, selection sets and subscriptions. *)
-Theorem C13_C01_view_eq : forall leaf S F G,
+    handed to it as a schema: [FeaturesExe.view leaf inp adefs dt S F] — the types, fields,
+    implemented interfaces, union members and root types the request may see, the argument
+    definitions of the visible fields of visible object types, the input types the request may see
+    ([leaf], [inp], [adefs], [dt]: how scalars and enums, input types, a field's argument
+    definitions and the DateTime table are presented to C01 / C05; arbitrary, erasure does not
+    touch what they describe).  The F-view of S is literally the G-view of the erased schema, so
+    C01's whole request pipeline (operation selection, variable coercion, execution) returns the same
+    on both.  That the real executor on (S, F) behaves as C01's model on the F-view is tied by this
+    property's check: its selection-set documents are also run through [ArgModel.run_request] on
+    the F-view and compared with the real response (Feat/FeaturesCheck.v). *)
+Theorem C13_C01_view_eq : forall leaf inp adefs dt S F G,
   schema_ok S = true -> subset F G = true ->
-  FeaturesExe.view leaf (erase S F) G = FeaturesExe.view leaf S F.
+  FeaturesExe.view leaf inp adefs dt (erase S F) G = FeaturesExe.view leaf inp adefs dt S F.
 Proof. exact FeaturesExe.view_erase. Qed.
 
-Theorem C13_C01_run_request_eq : forall leaf S F G M R opname En fuel W,
+Theorem C13_C01_run_request_eq : forall leaf inp adefs dt S F G M R opname raw fuel W,
   schema_ok S = true -> subset F G = true ->
-  ExecModel.run_request M (FeaturesExe.view leaf (erase S F) G) R opname En fuel W
-  = ExecModel.run_request M (FeaturesExe.view leaf S F) R opname En fuel W.
-Proof. exact (fun leaf S F G M R opname En fuel W Hok HFG => FeaturesExe.exe_view_run_request leaf S F G Hok HFG M R opname En fuel W). Qed.
+  ArgModel.run_request M (FeaturesExe.view leaf inp adefs dt (erase S F) G) R opname raw fuel W
+  = ArgModel.run_request M (FeaturesExe.view leaf inp adefs dt S F) R opname raw fuel W.
+Proof.
+  exact (fun leaf inp adefs dt S F G M R opname raw fuel W Hok HFG =>
+           FeaturesExe.exe_view_run_request leaf inp adefs dt S F G Hok HFG M R opname raw fuel W).
+Qed.
 
 (** the reference exists: the reduced schema is accepted by schema.New *)
 Theorem C13_erase_schema_ok : forall S F, schema_ok S = true -> schema_ok (erase S F) = true.
